@@ -48,7 +48,7 @@ Definition stable_eq (a b : term) : Prop :=
   m_sgrmouse a = m_sgrmouse b /\ m_alt a = m_alt b /\ m_paste a = m_paste b /\ m_sync a = m_sync b /\
   m_unicode a = m_unicode b /\ m_theme a = m_theme b /\ m_inband a = m_inband b /\
   m_sixelscroll a = m_sixelscroll b /\ m_other a = m_other b /\ t_keypad_app a = t_keypad_app b /\
-  t_kitty a = t_kitty b /\ t_appid a = t_appid b /\ t_honours_inband a = t_honours_inband b /\
+  t_kitty a = t_kitty b /\ t_kitty_other a = t_kitty_other b /\ t_appid a = t_appid b /\ t_honours_inband a = t_honours_inband b /\
   t_poison a = t_poison b.
 Definition calm_eq (a b : term) : Prop :=
   stable_eq a b /\ t_pen_default a = t_pen_default b /\ t_link_open a = t_link_open b.
@@ -360,7 +360,7 @@ Definition frame_eq (a b : term) : Prop :=
   m_sgrmouse a = m_sgrmouse b /\ m_alt a = m_alt b /\ m_paste a = m_paste b /\
   m_unicode a = m_unicode b /\ m_theme a = m_theme b /\ m_inband a = m_inband b /\
   m_sixelscroll a = m_sixelscroll b /\ m_other a = m_other b /\ t_keypad_app a = t_keypad_app b /\
-  t_kitty a = t_kitty b /\ t_appid a = t_appid b /\ t_honours_inband a = t_honours_inband b /\
+  t_kitty a = t_kitty b /\ t_kitty_other a = t_kitty_other b /\ t_appid a = t_appid b /\ t_honours_inband a = t_honours_inband b /\
   t_poison a = t_poison b.
 
 Lemma stable_frame a b : stable_eq a b -> frame_eq a b.
@@ -369,26 +369,28 @@ Lemma frame_eq_trans a b c : frame_eq a b -> frame_eq b c -> frame_eq a c.
 Proof. unfold frame_eq; intuition congruence. Qed.
 
 (* the terminal while Vaxis runs (between two operations) *)
-Definition run_inv (other kitty0 appid0 : list Z) (honours : bool) (fl : flags) (d : data) (t : term) : Prop :=
+Definition run_inv (other kitty0 kalt0 appid0 : list Z) (honours : bool) (fl : flags) (d : data) (t : term) : Prop :=
   m_ckeys t = true /\ m_btn t = negb (f_nomouse fl) /\ m_any t = negb (f_nomouse fl) /\
   m_focus t = negb (f_nomouse fl) /\ m_sgrmouse t = negb (f_nomouse fl) /\ m_alt t = true /\ m_paste t = true /\
   m_sync t = false /\ m_unicode t = (f_unicode fl && negb (f_explicit fl)) /\ m_theme t = f_theme fl /\
   m_sixelscroll t = f_sixels fl /\ m_other t = other /\ t_keypad_app t = true /\
-  t_kitty t = (if f_kittykb fl then d_kflags d :: kitty0 else kitty0) /\
+  (* Vaxis runs on the alternate screen: its flags sit on that screen's stack, the stack of the
+     main screen (not shown) is the one the terminal had before start-up, untouched *)
+  t_kitty t = (if f_kittykb fl then d_kflags d :: kalt0 else kalt0) /\ t_kitty_other t = kitty0 /\
   t_pen_default t = true /\ t_link_open t = false /\ t_honours_inband t = honours /\ t_poison t = false /\
   (f_osc176 fl = false -> t_appid t = appid0) /\
   (f_inband fl = true -> m_inband t = honours) /\ (m_inband t = true -> honours = true).
 
-Lemma run_inv_transfer other kitty0 appid0 honours fl d t t' :
-  run_inv other kitty0 appid0 honours fl d t -> frame_eq t' t ->
+Lemma run_inv_transfer other kitty0 kalt0 appid0 honours fl d t t' :
+  run_inv other kitty0 kalt0 appid0 honours fl d t -> frame_eq t' t ->
   m_sync t' = false -> t_pen_default t' = true -> t_link_open t' = false ->
-  run_inv other kitty0 appid0 honours fl d t'.
+  run_inv other kitty0 kalt0 appid0 honours fl d t'.
 Proof.
   unfold run_inv, frame_eq.
-  intros (a1&a2&a3&a4&a5&a6&a7&a8&a9&a10&a11&a12&a13&a14&a15&a16&a17&a18&a19&a20&a21)
-         (b1&b2&b3&b4&b5&b6&b7&b8&b9&b10&b11&b12&b13&b14&b15&b16&b17) S P L.
+  intros (a1&a2&a3&a4&a5&a6&a7&a8&a9&a10&a11&a12&a13&a14&a15&a16&a17&a18&a19&a20&a21&a22)
+         (b1&b2&b3&b4&b5&b6&b7&b8&b9&b10&b11&b12&b13&b14&b15&b16&b17&b18) S P L.
   repeat split; try congruence.
-  - intros H. rewrite b15. auto.
+  - intros H. rewrite b16. auto.
   - intros H. rewrite b10. auto.
   - intros H. rewrite b10 in H. auto.
 Qed.
@@ -421,10 +423,10 @@ Proof.
 Qed.
 
 (* ---------- Render ---------- *)
-Lemma render_preserves other kitty0 appid0 honours fl d x t :
-  st_run fl d x -> run_inv other kitty0 appid0 honours fl d t ->
+Lemma render_preserves other kitty0 kalt0 appid0 honours fl d x t :
+  st_run fl d x -> run_inv other kitty0 kalt0 appid0 honours fl d t ->
   let x' := do_render (clear_out x) in
-  run_inv other kitty0 appid0 honours fl d (sem_toks (s_out (x_m x')) t) /\ st_run fl d x'.
+  run_inv other kitty0 kalt0 appid0 honours fl d (sem_toks (s_out (x_m x')) t) /\ st_run fl d x'.
 Proof.
   intros Hs Hi. destruct Hs as (Hfl & Hd & Hn & Hb & Hp & Hh & Hsu & Hcl).
   set (y := clear_out x).
@@ -440,14 +442,14 @@ Proof.
     cbn [do_wrs fold_left]. unfold w_flush, buf_empty. rewrite Yn, Yb. cbn [negb nonempty andb].
     set (m := x_m y) in *.
     assert (K : forall l, forallb calm_tok l = true ->
-                run_inv other kitty0 appid0 honours fl d (sem_toks (s_out (emit l m)) t)).
+                run_inv other kitty0 kalt0 appid0 honours fl d (sem_toks (s_out (emit l m)) t)).
     { intros l Hl. destruct m; cbn in *. subst. cbn. fold (sem_toks l t).
       destruct (calm_toks_ok l t Hl) as (A & B & C).
       eapply run_inv_transfer; [exact Hi|apply stable_frame; exact A| | |].
       - destruct A as (_&_&_&_&_&_&_&S&_). rewrite S. apply Hi.
       - rewrite B. apply Hi.
       - rewrite C. apply Hi. }
-    assert (K0 : run_inv other kitty0 appid0 honours fl d (sem_toks (s_out m) t)).
+    assert (K0 : run_inv other kitty0 kalt0 appid0 honours fl d (sem_toks (s_out m) t)).
     { rewrite Yo. exact Hi. }
     assert (E : forall l, st_run fl d (mkS (set_refresh false (set_last (s_next (emit l m)) (emit l m)))
                     (x_shape_next y) (x_shape_next y) (x_gnext y) (x_gnext y) (x_suspended y) (x_closed y))).
@@ -491,19 +493,19 @@ Lemma leaf_scripts_are_leaves :
 Proof. reflexivity. Qed.
 
 (* ---------- Suspend (and Close, which is Suspend) from the running state ---------- *)
-Lemma suspend_restores other kitty0 appid0 honours fl d x t o :
-  st_run fl d x -> run_inv other kitty0 appid0 honours fl d t ->
+Lemma suspend_restores other kitty0 kalt0 appid0 honours fl d x t o :
+  st_run fl d x -> run_inv other kitty0 kalt0 appid0 honours fl d t ->
   (f_osc176 fl = true -> d_appid d = appid0) ->
   let x' := run_op o OpSuspend (clear_out x) in
-  sem_toks (s_out (x_m x')) t = fresh_term other kitty0 (d_ustyle d) appid0 honours
+  sem_toks (s_out (x_m x')) t = fresh_term other kitty0 kalt0 (d_ustyle d) appid0 honours
   /\ st_susp fl d x'.
 Proof.
   intros Hs Hi Hc.
   destruct x as [[fl' d' [nr nc ns nv] [lr lc ls lv] rf nu bf out pl hg] shn shl gn gl su cl].
   unfold st_run, st_susp in Hs; cbn in Hs; destruct Hs as (? & ? & ? & ? & ? & ? & ? & ?); subst fl' d' nu bf pl hg su cl.
-  destruct t as [ck cu bt an fo sg al pa sy' un' th' ib ss ot ka ki cs po ap pe li ho px].
+  destruct t as [ck cu bt an fo sg al pa sy' un' th' ib ss ot ka ki ko cs po ap pe li ho px].
   unfold run_inv in Hi; cbn in Hi.
-  destruct Hi as (?&?&?&?&?&?&?&?&?&?&?&?&?&?&?&?&?&?&Hap&Hib1&Hib2); subst ck bt an fo sg al pa sy' un' th' ss ot ka ki pe li ho px.
+  destruct Hi as (?&?&?&?&?&?&?&?&?&?&?&?&?&?&?&?&?&?&?&Hap&Hib1&Hib2); subst ck bt an fo sg al pa sy' un' th' ss ot ka ki ko pe li ho px.
   destruct fl as [sy un ex kk sx th a176 inb nm]; destruct d as [kf aid us]; cbn in Hc, Hap.
   destruct a176; [rewrite (Hc eq_refl) | rewrite (Hap eq_refl)]; clear Hc Hap Hib1 Hib2.
   all: destruct sy, un, ex, kk, sx, th, nm, nv, lv.
@@ -528,12 +530,12 @@ Proof.
     cbv beta iota delta [run_calls run_calls_f close_calls]. cbn [x_m x_closed]. split; reflexivity.
 Qed.
 
-Lemma close_restores other kitty0 appid0 honours fl d x t o p :
+Lemma close_restores other kitty0 kalt0 appid0 honours fl d x t o p :
   (p = OpClose \/ p = OpKill \/ p = OpPanic) ->
-  st_run fl d x -> run_inv other kitty0 appid0 honours fl d t ->
+  st_run fl d x -> run_inv other kitty0 kalt0 appid0 honours fl d t ->
   (f_osc176 fl = true -> d_appid d = appid0) ->
   let x' := run_op o p (clear_out x) in
-  sem_toks (s_out (x_m x')) t = fresh_term other kitty0 (d_ustyle d) appid0 honours
+  sem_toks (s_out (x_m x')) t = fresh_term other kitty0 kalt0 (d_ustyle d) appid0 honours
   /\ st_closed x'.
 Proof.
   intros Hp Hs Hi Hc. cbv zeta.
@@ -541,37 +543,37 @@ Proof.
   { destruct x as [[? ? ? ? ? ? ? ? ? ?] ? ? ? ? ? ?]; cbn. split; apply Hs. }
   destruct Hcl as [Hcl Hhu].
   destruct (close_is_suspend o (clear_out x) p Hp Hcl) as [E1 E2].
-  destruct (suspend_restores other kitty0 appid0 honours fl d x t o Hs Hi Hc) as [A B].
+  destruct (suspend_restores other kitty0 kalt0 appid0 honours fl d x t o Hs Hi Hc) as [A B].
   rewrite E1. split; [exact A|]. split; [apply E2; exact Hhu|]. rewrite E1. apply B.
 Qed.
 
 
 (* the terminal while Vaxis runs, in closed form *)
-Definition running_term (other kitty0 : list Z) (honours : bool) (fl : flags) (d : data)
+Definition running_term (other kitty0 kalt0 : list Z) (honours : bool) (fl : flags) (d : data)
                         (cu : bool) (cs : Z) (po ap : list Z) (ib : bool) : term :=
   mkTerm true cu (negb (f_nomouse fl)) (negb (f_nomouse fl)) (negb (f_nomouse fl)) (negb (f_nomouse fl))
          true true false (f_unicode fl && negb (f_explicit fl)) (f_theme fl) ib (f_sixels fl) other true
-         (if f_kittykb fl then d_kflags d :: kitty0 else kitty0) cs po ap true false honours false.
+         (if f_kittykb fl then d_kflags d :: kalt0 else kalt0) kitty0 cs po ap true false honours false.
 
-Lemma running_term_inv other kitty0 appid0 honours fl d cu cs po ap ib :
+Lemma running_term_inv other kitty0 kalt0 appid0 honours fl d cu cs po ap ib :
   (f_osc176 fl = false -> ap = appid0) -> (f_inband fl = true -> ib = honours) -> (ib = true -> honours = true) ->
-  run_inv other kitty0 appid0 honours fl d (running_term other kitty0 honours fl d cu cs po ap ib).
+  run_inv other kitty0 kalt0 appid0 honours fl d (running_term other kitty0 kalt0 honours fl d cu cs po ap ib).
 Proof. intros H1 H2 H3. unfold run_inv, running_term; cbn. repeat split; auto. Qed.
 
 (* ---------- Resume from the suspended state ---------- *)
-Lemma resume_establishes other kitty0 appid0 honours fl d x o :
+Lemma resume_establishes other kitty0 kalt0 appid0 honours fl d x o :
   st_susp fl d x ->
   let x' := run_op o OpResume (clear_out x) in
-  run_inv other kitty0 appid0 honours fl d
-          (sem_toks (s_out (x_m x')) (fresh_term other kitty0 (d_ustyle d) appid0 honours))
+  run_inv other kitty0 kalt0 appid0 honours fl d
+          (sem_toks (s_out (x_m x')) (fresh_term other kitty0 kalt0 (d_ustyle d) appid0 honours))
   /\ st_run fl d x'.
 Proof.
   intros Hs.
   destruct x as [[fl' d' [nr nc ns nv] [lr lc ls lv] rf nu bf out pl hg] shn shl gn gl su cl].
   unfold st_susp in Hs; cbn in Hs; destruct Hs as (? & ? & ? & ? & ? & ? & ? & ?); subst fl' d' nu bf pl hg su cl.
   cbv zeta. split.
-  - match goal with |- run_inv _ _ _ _ _ _ ?T =>
-      replace T with (running_term other kitty0 honours fl d (nv && lv) (if nv && lv then ns else d_ustyle d)
+  - match goal with |- run_inv _ _ _ _ _ _ _ ?T =>
+      replace T with (running_term other kitty0 kalt0 honours fl d (nv && lv) (if nv && lv then ns else d_ustyle d)
                                    text_shape appid0 (f_inband fl && honours)) end.
     + apply running_term_inv; auto. destruct (f_inband fl); cbn; auto; discriminate.
       destruct (f_inband fl), honours; cbn; auto.
@@ -602,14 +604,14 @@ Proof.
   set (M := run_top send_queries _). destruct M. reflexivity.
 Qed.
 
-Lemma startup_from_establishes other kitty0 cstyle0 appid0 honours fl nm d :
+Lemma startup_from_establishes other kitty0 kalt0 cstyle0 appid0 honours fl nm d :
   let m := startup_from fl nm d in
-  run_inv other kitty0 appid0 honours fl d (sem_toks (s_out m) (fresh_term other kitty0 cstyle0 appid0 honours))
+  run_inv other kitty0 kalt0 appid0 honours fl d (sem_toks (s_out m) (fresh_term other kitty0 kalt0 cstyle0 appid0 honours))
   /\ s_fl m = fl /\ s_d m = d /\ s_nuls m = false /\ s_buf m = [] /\ s_parser_live m = true /\ s_hung m = false.
 Proof.
   cbv zeta. split.
-  - match goal with |- run_inv _ _ _ _ _ _ ?T =>
-      replace T with (running_term other kitty0 honours fl d false cstyle0 text_shape appid0 honours) end.
+  - match goal with |- run_inv _ _ _ _ _ _ _ ?T =>
+      replace T with (running_term other kitty0 kalt0 honours fl d false cstyle0 text_shape appid0 honours) end.
     + apply running_term_inv; auto.
     + destruct fl as [sy un ex kk sx th a176 inb nm']; destruct d as [kf aid us].
       destruct sy, un, ex, kk, sx, th, a176, inb, nm', nm; reflexivity.
@@ -636,10 +638,10 @@ Proof.
   set (M := run_top send_queries _). destruct M. reflexivity.
 Qed.
 
-Lemma failed_from_restores other kitty0 cstyle0 appid0 honours fl nm d :
+Lemma failed_from_restores other kitty0 kalt0 cstyle0 appid0 honours fl nm d :
   (f_osc176 fl = true -> d_appid d = appid0) ->
-  sem_toks (s_out (failed_from fl nm d)) (fresh_term other kitty0 cstyle0 appid0 honours)
-  = fresh_term other kitty0 (d_ustyle d) appid0 honours
+  sem_toks (s_out (failed_from fl nm d)) (fresh_term other kitty0 kalt0 cstyle0 appid0 honours)
+  = fresh_term other kitty0 kalt0 (d_ustyle d) appid0 honours
   /\ s_hung (failed_from fl nm d) = false.
 Proof.
   intros Hc.
@@ -688,14 +690,14 @@ Fixpoint run_ops_st (o : opts) (ops : list op) (x : sst) : sst :=
   match ops with [] => x | p :: r => run_ops_st o r (run_op o p (clear_out x)) end.
 
 Section Session.
-Variables (other kitty0 appid0 : list Z) (honours : bool) (fl : flags) (d : data) (o : opts).
+Variables (other kitty0 kalt0 appid0 : list Z) (honours : bool) (fl : flags) (d : data) (o : opts).
 Hypothesis Happ : f_osc176 fl = true -> d_appid d = appid0.
 
-Definition T0 : term := fresh_term other kitty0 (d_ustyle d) appid0 honours.
+Definition T0 : term := fresh_term other kitty0 kalt0 (d_ustyle d) appid0 honours.
 
 Definition inv (ph : phase) (x : sst) (t : term) : Prop :=
   match ph with
-  | PRun => st_run fl d x /\ run_inv other kitty0 appid0 honours fl d t
+  | PRun => st_run fl d x /\ run_inv other kitty0 kalt0 appid0 honours fl d t
   | PSusp => st_susp fl d x /\ t = T0
   | PClosed => st_closed x /\ t = T0
   end.
@@ -720,17 +722,17 @@ Proof.
       assert (Hsg : st_run fl d xg) by (destruct x; exact Hs).
       assert (E : run_op o (OpFrame g) (clear_out x) = do_render (clear_out xg)).
       { unfold run_op. rewrite Hy. destruct x; reflexivity. }
-      rewrite E. destruct (render_preserves _ _ _ _ _ _ _ _ Hsg Hr) as [A B]. split; [split; assumption|apply B].
+      rewrite E. destruct (render_preserves _ _ _ _ _ _ _ _ _ Hsg Hr) as [A B]. split; [split; assumption|apply B].
     + (* OpRender *) inversion Hp; subst ph1.
       assert (E : run_op o OpRender (clear_out x) = do_render (clear_out x)).
       { unfold run_op. rewrite Hy. reflexivity. }
-      rewrite E. destruct (render_preserves _ _ _ _ _ _ _ _ Hs Hr) as [A B]. split; [split; assumption|apply B].
+      rewrite E. destruct (render_preserves _ _ _ _ _ _ _ _ _ Hs Hr) as [A B]. split; [split; assumption|apply B].
     + (* OpRefresh *) inversion Hp; subst ph1.
       set (xr := set_m (set_refresh true (x_m x)) x).
       assert (Hsr : st_run fl d xr) by (destruct x as [[? ? ? ? ? ? ? ? ? ?] ? ? ? ? ? ?]; exact Hs).
       assert (E : run_op o OpRefresh (clear_out x) = do_render (clear_out xr)).
       { unfold run_op. rewrite Hy. destruct x as [[? ? ? ? ? ? ? ? ? ?] ? ? ? ? ? ?]; reflexivity. }
-      rewrite E. destruct (render_preserves _ _ _ _ _ _ _ _ Hsr Hr) as [A B]. split; [split; assumption|apply B].
+      rewrite E. destruct (render_preserves _ _ _ _ _ _ _ _ _ Hsr Hr) as [A B]. split; [split; assumption|apply B].
     + (* OpShowCursor *) inversion Hp; subst ph1. unfold run_op. rewrite Hy.
       destruct x as [[? ? ? ? ? ? ? ? ? ?] ? ? ? ? ? ?]; cbn in *. split; [split; [exact Hs|exact Hr]|apply Hs].
     + (* OpHideCursor *) inversion Hp; subst ph1. unfold run_op. rewrite Hy.
@@ -741,15 +743,15 @@ Proof.
       unfold run_op. rewrite Hy.
       destruct x as [[? ? ? ? ? ? ? ? ? ?] ? ? ? ? ? ?]; cbn in *. split; [split; [exact Hs|]|apply Hs].
       destruct t. unfold run_inv in *. cbn in *. rewrite E176.
-      destruct Hr as (?&?&?&?&?&?&?&?&?&?&?&?&?&?&?&?&?&?&?&?&?). repeat split; auto. discriminate.
+      destruct Hr as (?&?&?&?&?&?&?&?&?&?&?&?&?&?&?&?&?&?&?&?&?&?). repeat split; auto. discriminate.
     + (* OpSuspend *) inversion Hp; subst ph1.
-      destruct (suspend_restores _ _ _ _ _ _ _ _ o Hs Hr Happ) as [A B]. split; [split; [exact B|exact A]|apply B].
+      destruct (suspend_restores _ _ _ _ _ _ _ _ _ o Hs Hr Happ) as [A B]. split; [split; [exact B|exact A]|apply B].
     + (* OpClose *) inversion Hp; subst ph1.
-      destruct (close_restores _ _ _ _ _ _ _ _ o OpClose (or_introl eq_refl) Hs Hr Happ) as [A B]. split; [split; [exact B|exact A]|apply B].
+      destruct (close_restores _ _ _ _ _ _ _ _ _ o OpClose (or_introl eq_refl) Hs Hr Happ) as [A B]. split; [split; [exact B|exact A]|apply B].
     + (* OpKill *) inversion Hp; subst ph1.
-      destruct (close_restores _ _ _ _ _ _ _ _ o OpKill (or_intror (or_introl eq_refl)) Hs Hr Happ) as [A B]. split; [split; [exact B|exact A]|apply B].
+      destruct (close_restores _ _ _ _ _ _ _ _ _ o OpKill (or_intror (or_introl eq_refl)) Hs Hr Happ) as [A B]. split; [split; [exact B|exact A]|apply B].
     + (* OpPanic *) inversion Hp; subst ph1.
-      destruct (close_restores _ _ _ _ _ _ _ _ o OpPanic (or_intror (or_intror eq_refl)) Hs Hr Happ) as [A B]. split; [split; [exact B|exact A]|apply B].
+      destruct (close_restores _ _ _ _ _ _ _ _ _ o OpPanic (or_intror (or_intror eq_refl)) Hs Hr Happ) as [A B]. split; [split; [exact B|exact A]|apply B].
   - (* suspended *)
     destruct Hi as [Hs Ht]. destruct Hf as [-> ->].
     assert (Hy : s_hung (x_m (clear_out x)) = false).
@@ -762,7 +764,7 @@ Proof.
     + inversion Hp; subst ph1. unfold run_op. rewrite Hy.
       destruct x as [[? ? ? ? ? ? ? ? ? ?] ? ? ? ? ? ?]; cbn in *. split; [split; [exact Hs|exact Ht]|apply Hs].
     + (* OpResume *) inversion Hp; subst ph1. subst t.
-      destruct (resume_establishes other kitty0 appid0 honours _ _ _ o Hs) as [A B]. split; [split; [exact B|exact A]|apply B].
+      destruct (resume_establishes other kitty0 kalt0 appid0 honours _ _ _ o Hs) as [A B]. split; [split; [exact B|exact A]|apply B].
   - (* closed: only another Close, which does nothing *)
     destruct Hi as [Hs Ht].
     destruct p; cbn in Hp; try discriminate. inversion Hp; subst ph1.
@@ -800,20 +802,20 @@ Proof.
 Qed.
 
 Section Session2.
-Variables (other kitty0 appid0 : list Z) (honours : bool) (fl : flags) (d : data) (o : opts).
+Variables (other kitty0 kalt0 appid0 : list Z) (honours : bool) (fl : flags) (d : data) (o : opts).
 Hypothesis Happ : f_osc176 fl = true -> d_appid d = appid0.
 
 Lemma ops_inv : forall ops ph ph' x t sus clo,
-  inv other kitty0 appid0 honours fl d ph x t -> protocol fl ph ops = Some ph' -> phase_flags ph sus clo ->
+  inv other kitty0 kalt0 appid0 honours fl d ph x t -> protocol fl ph ops = Some ph' -> phase_flags ph sus clo ->
   hits_suspended_shutdown ops sus clo = false ->
-  inv other kitty0 appid0 honours fl d ph' (run_ops_st o ops x) (sem_toks (flat_map snd (run_ops o ops x)) t)
+  inv other kitty0 kalt0 appid0 honours fl d ph' (run_ops_st o ops x) (sem_toks (flat_map snd (run_ops o ops x)) t)
   /\ forallb (fun c => fst c =? 0) (run_ops o ops x) = true.
 Proof.
   induction ops as [|p r IH]; intros ph ph' x t sus clo Hi Hp Hf Hh.
   - cbn in Hp. inversion Hp; subst. cbn [run_ops run_ops_st flat_map forallb]. split; [exact Hi|reflexivity].
   - cbn [protocol] in Hp. destruct (protocol_step fl ph p) as [ph1|] eqn:Es; [|discriminate].
     pose proof (hits_cons_false _ _ _ _ Hh) as Hh1.
-    destruct (step_inv other kitty0 appid0 honours fl d o Happ ph ph1 p x t sus clo Hi Es Hf Hh1) as [Hi1 Hhung].
+    destruct (step_inv other kitty0 kalt0 appid0 honours fl d o Happ ph ph1 p x t sus clo Hi Es Hf Hh1) as [Hi1 Hhung].
     destruct (hits_next _ _ _ _ _ _ _ Es Hf Hh) as (sus' & clo' & Hf' & Hh').
     specialize (IH ph1 ph' _ _ sus' clo' Hi1 Hp Hf' Hh'). destruct IH as [IH1 IH2].
     cbn [run_ops run_ops_st flat_map snd forallb fst]. rewrite sem_toks_app. split; [exact IH1|].
@@ -826,9 +828,9 @@ Definition ends_restored (ph : phase) : bool := match ph with PRun => false | _ 
 
 Theorem session_restores :
   forall (o : opts) (det : flags) (d : data) (rows cols : Z) (ops : list op)
-         (other kitty0 appid0 : list Z) (honours : bool) (ph : phase),
+         (other kitty0 kalt0 appid0 : list Z) (honours : bool) (ph : phase),
   let fl := apply_quirks o (with_nomouse (o_nomouse o) det) in
-  let t0 := fresh_term other kitty0 (d_ustyle d) appid0 honours in
+  let t0 := fresh_term other kitty0 kalt0 (d_ustyle d) appid0 honours in
   (f_osc176 fl = true -> d_appid d = appid0) ->
   protocol fl PRun ops = Some ph ->
   hits_suspended_shutdown ops false false = false ->
@@ -836,14 +838,14 @@ Theorem session_restores :
   forallb (fun c => fst c =? 0) chunks = true
   /\ (ends_restored ph = true -> sem_toks (flat_map snd chunks) t0 = t0).
 Proof.
-  intros o det d rows cols ops other kitty0 appid0 honours ph fl t0 Happ Hp Hh chunks.
+  intros o det d rows cols ops other kitty0 kalt0 appid0 honours ph fl t0 Happ Hp Hh chunks.
   subst chunks. unfold session_chunks.
   set (x0 := start_session o det d rows cols).
-  assert (H0 : inv other kitty0 appid0 honours fl d PRun x0 (sem_toks (s_out (x_m x0)) t0)).
+  assert (H0 : inv other kitty0 kalt0 appid0 honours fl d PRun x0 (sem_toks (s_out (x_m x0)) t0)).
   { subst x0. unfold start_session. cbn [x_m]. rewrite startup_factor. fold fl.
-    destruct (startup_from_establishes other kitty0 (d_ustyle d) appid0 honours fl (o_nomouse o) d) as (A & B1 & B2 & B3 & B4 & B5 & B6).
+    destruct (startup_from_establishes other kitty0 kalt0 (d_ustyle d) appid0 honours fl (o_nomouse o) d) as (A & B1 & B2 & B3 & B4 & B5 & B6).
     split; [|exact A]. unfold st_run; cbn [x_m x_suspended x_closed]. repeat split; assumption. }
-  destruct (ops_inv other kitty0 appid0 honours fl d o Happ ops PRun ph x0 _ false false H0 Hp (conj eq_refl eq_refl) Hh) as [A B].
+  destruct (ops_inv other kitty0 kalt0 appid0 honours fl d o Happ ops PRun ph x0 _ false false H0 Hp (conj eq_refl eq_refl) Hh) as [A B].
   cbn [forallb fst flat_map snd]. rewrite sem_toks_app. split; [exact B|].
   intros He. destruct ph; try discriminate; apply A.
 Qed.
@@ -890,26 +892,26 @@ Qed.
    visibility and style, the pointer shape and the application id, which belong to the application *)
 Definition established (t : term) :=
   (m_ckeys t, m_btn t, m_any t, m_focus t, m_sgrmouse t, m_alt t, m_paste t, m_sync t, m_unicode t, m_theme t,
-   m_inband t, m_sixelscroll t, m_other t, t_keypad_app t, t_kitty t, t_pen_default t, t_link_open t, t_poison t).
+   m_inband t, m_sixelscroll t, m_other t, t_keypad_app t, t_kitty t, t_kitty_other t, t_pen_default t, t_link_open t, t_poison t).
 
-Lemma run_inv_established other kitty0 appid0 honours fl d t t' :
+Lemma run_inv_established other kitty0 kalt0 appid0 honours fl d t t' :
   (honours = true -> f_inband fl = true) ->
-  run_inv other kitty0 appid0 honours fl d t -> run_inv other kitty0 appid0 honours fl d t' ->
+  run_inv other kitty0 kalt0 appid0 honours fl d t -> run_inv other kitty0 kalt0 appid0 honours fl d t' ->
   established t = established t'.
 Proof.
-  intros Hh (a1&a2&a3&a4&a5&a6&a7&a8&a9&a10&a11&a12&a13&a14&a15&a16&a17&a18&a19&a20&a21)
-            (b1&b2&b3&b4&b5&b6&b7&b8&b9&b10&b11&b12&b13&b14&b15&b16&b17&b18&b19&b20&b21).
+  intros Hh (a1&a2&a3&a4&a5&a6&a7&a8&a9&a10&a11&a12&a13&a14&a15&a16&a17&a18&a19&a20&a21&a22)
+            (b1&b2&b3&b4&b5&b6&b7&b8&b9&b10&b11&b12&b13&b14&b15&b16&b17&b18&b19&b20&b21&b22).
   assert (Ei : forall u, (f_inband fl = true -> m_inband u = honours) -> (m_inband u = true -> honours = true) ->
                m_inband u = honours).
   { intros u H1 H2. destruct honours; [auto|]. destruct (m_inband u); auto. }
-  unfold established. rewrite (Ei t a20 a21), (Ei t' b20 b21). congruence.
+  unfold established. rewrite (Ei t a21 a22), (Ei t' b21 b22). congruence.
 Qed.
 
 Theorem resume_reestablishes :
   forall (o : opts) (det : flags) (d : data) (rows cols : Z) (ops : list op)
-         (other kitty0 appid0 : list Z) (honours : bool),
+         (other kitty0 kalt0 appid0 : list Z) (honours : bool),
   let fl := apply_quirks o (with_nomouse (o_nomouse o) det) in
-  let t0 := fresh_term other kitty0 (d_ustyle d) appid0 honours in
+  let t0 := fresh_term other kitty0 kalt0 (d_ustyle d) appid0 honours in
   (f_osc176 fl = true -> d_appid d = appid0) ->
   (honours = true -> f_inband fl = true) ->
   protocol fl PRun (ops ++ [OpResume]) = Some PRun ->
@@ -917,14 +919,14 @@ Theorem resume_reestablishes :
   established (sem_toks (flat_map snd (session_chunks o det d rows cols (ops ++ [OpResume]))) t0)
   = established (sem_toks (s_out (startup o det d)) t0).
 Proof.
-  intros o det d rows cols ops other kitty0 appid0 honours fl t0 Happ Hin Hp Hh.
+  intros o det d rows cols ops other kitty0 kalt0 appid0 honours fl t0 Happ Hin Hp Hh.
   unfold session_chunks.
   set (x0 := start_session o det d rows cols).
-  assert (H0 : inv other kitty0 appid0 honours fl d PRun x0 (sem_toks (s_out (x_m x0)) t0)).
+  assert (H0 : inv other kitty0 kalt0 appid0 honours fl d PRun x0 (sem_toks (s_out (x_m x0)) t0)).
   { subst x0. unfold start_session. cbn [x_m]. rewrite startup_factor. fold fl.
-    destruct (startup_from_establishes other kitty0 (d_ustyle d) appid0 honours fl (o_nomouse o) d) as (A & B1 & B2 & B3 & B4 & B5 & B6).
+    destruct (startup_from_establishes other kitty0 kalt0 (d_ustyle d) appid0 honours fl (o_nomouse o) d) as (A & B1 & B2 & B3 & B4 & B5 & B6).
     split; [|exact A]. unfold st_run; cbn [x_m x_suspended x_closed]. repeat split; assumption. }
-  destruct (ops_inv other kitty0 appid0 honours fl d o Happ _ PRun PRun x0 _ false false H0 Hp (conj eq_refl eq_refl) Hh) as [A B].
+  destruct (ops_inv other kitty0 kalt0 appid0 honours fl d o Happ _ PRun PRun x0 _ false false H0 Hp (conj eq_refl eq_refl) Hh) as [A B].
   cbn [flat_map snd]. rewrite sem_toks_app.
   eapply run_inv_established; [exact Hin|apply A|apply H0].
 Qed.
